@@ -236,7 +236,7 @@ func (s *spy) Open(ctx context.Context, fid p9p.Fid, mode p9p.Flag) (p9p.Qid, ui
 }
 func (s *spy) Create(ctx context.Context, parent p9p.Fid, name string, perm uint32, mode p9p.Flag) (p9p.Qid, uint32, error) {
 	q, iou, err := s.inner.Create(ctx, parent, name, perm, mode)
-	c := call{kind: "create", fid: parent, name: name, perm: perm, mode: mode, err: err}
+	c := call{kind: "create", fid: parent, name: name, perm: perm, mode: mode, err: err, qids: []p9p.Qid{q}}
 	if err != nil {
 		c.ans = sx.Sym("err")
 	} else {
@@ -602,6 +602,22 @@ func runSeq(r *rep.Report, rng *prng.R) {
 				r.Fail("cfs."+kind+".ownfid", fmt.Sprintf("%s on the entry with fid %d issued %s on fid %d", kind, efid, ic.kind, ic.fid), c, nil)
 			}
 			if kind == "walk" {
+				// the layer normalises before sending: no "", no ".", ".." only as a leading run, no separators
+				lead := true
+				for _, nm := range ic.names {
+					if nm == "" || nm == "." || strings.ContainsAny(nm, "/\\") || (nm == ".." && !lead) {
+						r.Fail("cfs.walk.unnormalised", fmt.Sprintf("Walk(%q) sent the names %q to the session", walkNames, ic.names), c, nil)
+						break
+					}
+					if nm != ".." {
+						lead = false
+					}
+				}
+			}
+			if kind == "create" && ic.err == nil && slots[si].ent.Qid() != createdQid(ic) {
+				r.Fail("cfs.create.qid", fmt.Sprintf("Create: the session answered qid %v, the entry returned has qid %v", createdQid(ic), slots[si].ent.Qid()), c, nil)
+			}
+			if kind == "walk" {
 				if ic.err == nil && ic.complete {
 					// the server completed the walk: success, entry for the walked-to file
 					if strings.Contains(strings.Join(walkNames, "\x00"), ".") || len(walkNames) != len(ic.names) {
@@ -686,6 +702,8 @@ func runSeq(r *rep.Report, rng *prng.R) {
 	r.Extra["unbound_table_entries_seen"] = oddTotal
 	r.Case(c, sx.List(obs), br, len(ops) > 1)
 }
+
+func createdQid(c call) p9p.Qid { return c.qids[0] }
 
 var opResults = map[string]int{}
 
